@@ -9,9 +9,12 @@ import (
 	"sort"
 	"strconv"
 
+	"github.com/robfig/soy/ast"
 	"github.com/robfig/soy/data"
 	"github.com/robfig/soy/soyhtml"
 	"github.com/robfig/soy/soyjs"
+	"github.com/robfig/soy/soymsg"
+	"github.com/robfig/soy/template"
 )
 
 // C08hist: histories of renders over one compiled bundle.  After EVERY operation a deep
@@ -131,11 +134,82 @@ func digestValue(h hashWriter, v reflect.Value, seen map[uintptr]bool, depth int
 	}
 }
 
+// probe templates added to every bundle: content blocks (let / param / log) whose inside can fail, a
+// translated message followed by a {let} that shadows a param, an obligatory-directive-sensitive print.
+const c08Probe = `{namespace probe}
+
+/**
+ * @param? u
+ * @param visits
+ */
+{template .blk}
+{let $c}Profile of {$u.name} {/let}{$c}
+{call .wrap}{param body}inner {$u.name}{/param}{/call}
+{log}log {$u.name}{/log}
+{msg desc="greeting"}Hi {$visits}{/msg}
+{let $visits: $visits + 1 /}#{$visits}
+{/template}
+
+/** @param body */
+{template .wrap}
+[{$body|noAutoescape|truncate:40}]
+{/template}
+
+/** @param visits */
+{template .ok}
+{let $d}Hello {/let}{$d}world{call .wrap}{param body}b{/param}{/call}
+{msg desc="count"}You came {$visits} times{/msg}{let $visits: $visits * 2 /}{$visits}
+{/template}
+`
+
+// memBundle is an in-memory soymsg.Bundle with the identity translation of every flat message.
+type memBundle struct{ msgs map[uint64]*soymsg.Message }
+
+func (b memBundle) Locale() string                     { return "xx" }
+func (b memBundle) Message(id uint64) *soymsg.Message { return b.msgs[id] }
+func (b memBundle) PluralCase(n int) int {
+	if n == 1 {
+		return 0
+	}
+	return 1
+}
+
+func identityBundle(reg *template.Registry) memBundle {
+	b := memBundle{map[uint64]*soymsg.Message{}}
+	var walk func(n ast.Node)
+	walk = func(n ast.Node) {
+		if m, ok := n.(*ast.MsgNode); ok {
+			flat := true
+			for _, c := range m.Body.Children() {
+				if _, ok := c.(*ast.MsgPluralNode); ok {
+					flat = false
+				}
+			}
+			if flat {
+				b.msgs[m.ID] = soymsg.NewMessage(m.ID, soymsg.PlaceholderString(m))
+			}
+			return
+		}
+		if p, ok := n.(ast.ParentNode); ok {
+			for _, c := range p.Children() {
+				if c != nil {
+					walk(c)
+				}
+			}
+		}
+	}
+	for _, t := range reg.Templates {
+		walk(t.Node)
+	}
+	return b
+}
+
 type c08Op struct {
 	kind string // render | js
 	tmpl string
 	di   int // index of the data set
 	ij   bool
+	msgs bool // render with the identity message bundle
 }
 
 func directC08(g *G, rep *Report) {
@@ -144,11 +218,13 @@ func directC08(g *G, rep *Report) {
 	r := g.R.Fork()
 	for i := 0; i < nb; i++ {
 		b := bg.bundle()
-		fs := b.sources()
+		fs := append(b.sources(), srcFile{"probe.soy", c08Probe})
 		reg, err := compileBundle(fs)
 		if err != nil {
+			rep.Distribution["compile-error"]++
 			continue
 		}
+		msgs := identityBundle(reg)
 		cfg := "default"
 		switch i % 3 {
 		case 1:
@@ -169,25 +245,27 @@ func directC08(g *G, rep *Report) {
 		for _, f := range b.files {
 			tmpls = append(tmpls, f.tmpls...)
 		}
+		tmpls = append(tmpls, &gTemplate{ns: "probe", short: "blk"}, &gTemplate{ns: "probe", short: "ok"}, &gTemplate{ns: "probe", short: "blk"}, &gTemplate{ns: "probe", short: "ok"})
 		var datas []data.Map
 		for _, t := range tmpls {
 			datas = append(datas, toData(bg.dataFor(t)))
 		}
+		datas = append(datas, toData(map[string]interface{}{"visits": int64(1), "u": map[string]interface{}{"name": "Ann"}}), toData(map[string]interface{}{"visits": int64(4)}))
 		datas = append(datas, data.Map{}, toData(map[string]interface{}{"i": "str", "s": int64(5), "l": "notalist", "m": []interface{}{int64(1)}, "b": nil, "f": "x", "n": int64(1)}))
 		ij := toData(map[string]interface{}{"s": "ij", "n": int64(2), "m": map[string]interface{}{"a": int64(1)}})
 		tofu := soyhtml.NewTofu(reg)
-		base := deepDigest(reg, datas, ij)
+		base := deepDigest(reg, datas, ij, msgs.msgs)
 		first := map[string]string{}
 		nops := 2 + r.Intn(29)
 		recur := false
 		lastKey := ""
 		for k := 0; k < nops; k++ {
-			op := c08Op{kind: "render", tmpl: tmpls[r.Intn(len(tmpls))].full(), di: r.Intn(len(datas)), ij: r.Intn(3) > 0}
+			op := c08Op{kind: "render", tmpl: tmpls[r.Intn(len(tmpls))].full(), di: r.Intn(len(datas)), ij: r.Intn(3) > 0, msgs: r.Intn(3) == 0}
 			if r.Intn(6) == 0 {
 				op.kind = "js"
 			}
 			var out string
-			key := op.kind + "|" + op.tmpl + "|" + strconv.Itoa(op.di) + "|" + strconv.FormatBool(op.ij)
+			key := op.kind + "|" + op.tmpl + "|" + strconv.Itoa(op.di) + "|" + strconv.FormatBool(op.ij) + "|" + strconv.FormatBool(op.msgs)
 			if op.kind == "js" {
 				var buf bytes.Buffer
 				cls := safely(func() error { return soyjs.Write(&buf, reg.SoyFiles[r.Intn(len(reg.SoyFiles))], soyjs.Options{}) })
@@ -201,13 +279,16 @@ func directC08(g *G, rep *Report) {
 					if op.ij {
 						rd = rd.Inject(ij)
 					}
+					if op.msgs {
+						rd = rd.WithMessages(msgs)
+					}
 					return rd.Execute(&buf, datas[op.di])
 				})
 				out = cls + ":" + buf.String()
 				rep.Distribution["op:render:"+cls]++
 			}
 			rep.Evaluations++
-			if d := deepDigest(reg, datas, ij); d != base {
+			if d := deepDigest(reg, datas, ij, msgs.msgs); d != base {
 				rep.Violations = append(rep.Violations, Viol{Key: "c08-mutated-shared-state:" + op.kind + ":" + cfg, What: "an operation modified the compiled bundle, a data map or $ij (deep digest changed)",
 					Req: req("c08hist", encSources(fs)), Note: fmt.Sprintf("op %d of %d: %+v config=%s", k, nops, op, cfg), Impl: d, Want: base})
 				base = d
